@@ -82,11 +82,18 @@ def mk_operand(tag, classes, tau_case="nonneg", offaxis=None):
             z = ctx.new(f"z{tag}"); desc["vars"]["z"] = z
             out.append(A.var(z))
         elif l is LongitudinalTheta:
-            th = Ang.atom(f"th{tag}", 0, 1)
-            ctx.atomval[th.name] = (lambda env, cv=th.cv, sv=th.sv: S._mp().atan2(env[sv], env[cv]))
-            ctx.sign[th.sv] = "+"
-            ctx.hyp(f_rel(Poly.var(th.sv), ">"), pre=True)
-            desc["vars"]["theta"] = (th.cv, th.sv)
+            # theta in (0, pi) is parametrised by k = cot(theta), any real: cos = k/w, sin = 1/w, w = sqrt(1+k^2),
+            # tan(theta/2) = 1/(w+k).  This keeps z = rho*k polynomial.
+            k = ctx.new(f"cot{tag}")
+            kA = A.var(k)
+            w = LIB.sqrt(1 + kA * kA)
+            name = f"th{tag}"
+            th = Ang(kA * w.recip(), w.recip(), {name: Fr(1)})
+            th.name = name
+            th.tanhalf = (w + kA).recip()
+            ctx.ranges[name] = (Fr(0), Fr(1))
+            ctx.atomval[name] = (lambda env, k=k: S._mp().atan2(1, env[k]))
+            desc["vars"]["theta"] = k
             out.append(th)
         else:
             E = ctx.new(f"E{tag}", "+")
@@ -226,7 +233,7 @@ def sample_inputs(ctx, rng, style="generic"):
             env[vs["z"]] = real()
         if "theta" in vs:
             a = mp.mpf(rng.uniform(0.02, 3.12))
-            env[vs["theta"][0]] = mp.cos(a); env[vs["theta"][1]] = mp.sin(a)
+            env[vs["theta"]] = mp.cos(a) / mp.sin(a)
         if "eta" in vs:
             env[vs["eta"]] = mp.exp(mp.mpf(rng.gauss(0, 1.2)))
         if "t" in vs:
@@ -261,7 +268,7 @@ def stored_from_env(ctx, env):
         if "z" in vs:
             co.append(env[vs["z"]])
         if "theta" in vs:
-            co.append(mp.atan2(env[vs["theta"][1]], env[vs["theta"][0]]))
+            co.append(mp.atan2(1, env[vs["theta"]]))
         if "eta" in vs:
             co.append(mp.log(env[vs["eta"]]))
         if "t" in vs:
